@@ -230,13 +230,13 @@ Qed.
 
 (* the accepted circuits whose gates are plain library gates on valid qubits are simulated correctly:
    every stabiliser generator of the final tableau stabilises the exact state-vector result *)
-Theorem execute_plain_ok n c l T :
+Theorem execute_plain_ok half n c l T :
   sops_of c = Some l -> Forall (sop_valid n) l ->
-  execute_circuit n c = Final T ->
+  execute_circuit_at half n c = Final T ->
   forall w, In w (stabilisers n T) -> row_wf n w /\ stabilises n w (run_spec l psi0).
 Proof.
-  intros Hs Hv He w Hw. unfold execute_circuit in He.
-  destruct (accepted c); [|discriminate].
+  intros Hs Hv He w Hw. unfold execute_circuit_at in He.
+  destruct (accepted_at half c); [|discriminate].
   destruct (run_gates_sops c l (zero_state n) Hs) as [Hall Hrun].
   rewrite Hrun in He. injection He as <-.
   apply clifford_sim_ok; auto. now apply Forall_forall.
